@@ -1,2 +1,157 @@
-(* C05 -- theorems land here *)
-Require Import XV.Differ XV.Spec.
+(* C05 -- "Every action is applicable as documented and loses no content
+   implicitly: when applied in order, UpdateAttrib targets an attribute that
+   exists, InsertAttrib and the new name of RenameAttrib one that does not,
+   insert and move positions lie between 0 and the target's child count (not
+   counting the moved node), a node is never moved into itself or its own
+   subtree, and DeleteNode only ever removes a node that has no child nodes left."
+
+   Models: XV.Pipeline.diff_model (Differ.match + Differ.diff, similarity oracle),
+   XV.Spec.spec_apply / run_spec: the documented meaning of the actions as a
+   STRICT interpreter, which answers None as soon as a documented precondition is
+   violated; run_spec root L script = Some W therefore says that every action of
+   the script, applied in order starting from L, is applicable as documented.
+   Hypotheses as in C01 (oracle laws "not (F <= 0)" and "0 != 1.0", well-formed
+   documents, consistent namespace maps).
+
+   C05_applicable spells the preconditions out, sentence by sentence: for every
+   split  script = pre ++ a :: post  and the tree f reached after pre
+   (run_spec rootL L pre = Some f), a is applicable to f, and in particular
+     UpdateAttrib n k v   : k is an attribute of n             (ahas .. k = true)
+     InsertAttrib n k v   : k is not an attribute of n         (ahas .. k = false)
+     DeleteAttrib n k     : k is an attribute of n
+     RenameAttrib n k k'  : k is, k' is not an attribute of n
+     InsertNode / InsertComment target pos : pos <= number of children of target
+     MoveNode n target pos: pos <= number of children of target other than n;
+                            target is not in the subtree of n (n itself
+                            included); n is not the root
+     DeleteNode n         : n has no children (nothing is lost implicitly); n is
+                            not the root.
+   (kidsof f t = the child list of t in f; subtree k f n = n and its descendants;
+   mem = list membership; remove_id n l = l without n.)
+   C05_every_matching: the same for the differ run on EVERY valid matching.
+   Proofs: XV.PipelineProofs (run_spec_split, inversion of spec_apply),
+   XV.DifferSound, XV.MatcherProofs. *)
+From Coq Require Import List NArith ZArith Bool Arith.
+Import ListNotations.
+Require Import XV.Str XV.Forest XV.Matcher XV.Differ XV.Spec XV.WF XV.DifferSound
+               XV.Pipeline XV.PipelineProofs.
+
+Theorem C05_applicable :
+  forall (sim : Type) (sim_ltb sim_leb : sim -> sim -> bool) (sim_is_one : sim -> bool)
+         (zero one : sim) (leaf_sim : str -> str -> sim) (combine : sim -> nat -> nat -> sim)
+         (o : mopts sim) (L R : forest) (rootL rootR : id) (lns rns : nsmap),
+  sim_leb (oF sim o) zero = false -> sim_is_one zero = false ->
+  wf_forest L rootL -> wf_forest R rootR ->
+  ns_prologue lns rns <> None ->
+  exists script W,
+    diff_model sim sim_ltb sim_leb sim_is_one zero one leaf_sim combine o L R rootL rootR lns rns
+      = Some (script, W)
+    /\ run_spec rootL L script = Some W
+    /\ forall pre a post f,
+         script = pre ++ a :: post -> run_spec rootL L pre = Some f ->
+         (exists f', spec_apply rootL f a = Some f') /\
+         match a with
+         | IUpdAttr n k _ => ahas (lattrs (labof f n)) k = true
+         | IInsAttr n k _ => ahas (lattrs (labof f n)) k = false
+         | IDelAttr n k => ahas (lattrs (labof f n)) k = true
+         | IRenAttr n k k' => ahas (lattrs (labof f n)) k = true /\ ahas (lattrs (labof f n)) k' = false
+         | IInsert t _ pos _ | IInsertComment t pos _ _ => pos <= length (kidsof f t)
+         | IMove n t pos => pos <= length (remove_id n (kidsof f t))
+                            /\ mem t (subtree (S (fnext f)) f n) = false /\ n <> rootL
+         | IDelete n => kidsof f n = [] /\ n <> rootL
+         | _ => True
+         end.
+Proof.
+  intros sim sim_ltb sim_leb sim_is_one zero one leaf_sim combine o L R rootL rootR lns rns HF H1 HL HR Hns.
+  destruct (diff_model_sound sim sim_ltb sim_leb sim_is_one zero one leaf_sim combine
+              o L R rootL rootR lns rns (conj HF H1) HL HR Hns) as (script & W & E1 & E2 & _).
+  exists script, W. split; [exact E1|]. split; [exact E2|].
+  intros pre a post f Hs Hpre. split.
+  - subst script. destruct (run_spec_split rootL L pre a post W E2) as (f0 & f' & F1 & F2 & _).
+    rewrite Hpre in F1. injection F1 as <-. exists f'. exact F2.
+  - exact (run_spec_clauses rootL L script W E2 pre a post f Hs Hpre).
+Qed.
+Print Assumptions C05_applicable.
+
+Theorem C05_every_matching :
+  forall (ignored : list str) (L R : forest) (rootL rootR : id) (m : list (id * id)),
+  wf_forest L rootL -> wf_forest R rootR -> valid_matching L R rootL rootR m ->
+  let s := gen_script ignored R rootR L rootL m in
+  run_spec rootL L (out s) = Some (W s)
+  /\ forall pre a post f,
+       out s = pre ++ a :: post -> run_spec rootL L pre = Some f ->
+       match a with
+       | IUpdAttr n k _ => ahas (lattrs (labof f n)) k = true
+       | IInsAttr n k _ => ahas (lattrs (labof f n)) k = false
+       | IDelAttr n k => ahas (lattrs (labof f n)) k = true
+       | IRenAttr n k k' => ahas (lattrs (labof f n)) k = true /\ ahas (lattrs (labof f n)) k' = false
+       | IInsert t _ pos _ | IInsertComment t pos _ _ => pos <= length (kidsof f t)
+       | IMove n t pos => pos <= length (remove_id n (kidsof f t))
+                          /\ mem t (subtree (S (fnext f)) f n) = false /\ n <> rootL
+       | IDelete n => kidsof f n = [] /\ n <> rootL
+       | _ => True
+       end.
+Proof.
+  intros ignored L R rootL rootR m HL HR Hvm s.
+  destruct (gen_script_replay ignored L R rootL rootR m HL HR Hvm) as (_ & E2 & _).
+  split; [exact E2|]. exact (run_spec_clauses rootL L (out s) (W s) E2).
+Qed.
+Print Assumptions C05_every_matching.
+
+(* Non-vacuity: the example of C01 (a move, an attribute update, an insertion).
+   The hypotheses hold; the script is applicable; the clauses, evaluated on the
+   intermediate trees, compute to true; and the strict interpreter does refuse
+   scripts that violate them (an update of a missing attribute, an insertion
+   beyond the last child, a move of a node into itself, the deletion of a node
+   with children). *)
+Example C05_example :
+  let L := mk_forest [(0, [1; 2])]
+            [(0, Lab (TElem [114%N]) [] None None);
+             (1, Lab (TElem [97%N]) [([107%N], [49%N]); ([105%N], [55%N])] (Some [120%N]) None);
+             (2, Lab (TElem [98%N]) [] None None)] 3 in
+  let R := mk_forest [(0, [1; 2; 3])]
+            [(0, Lab (TElem [114%N]) [] None None);
+             (1, Lab (TElem [98%N]) [] None None);
+             (2, Lab (TElem [97%N]) [([107%N], [50%N]); ([105%N], [56%N])] (Some [121%N]) None);
+             (3, Lab TComment [] (Some [99%N]) (Some [116%N]))] 4 in
+  let leaf := fun a b : str => if str_eqb a b then 100 else
+              match a, b with x :: _, y :: _ => if N.eqb x y then 60 else 10 | _, _ => 10 end in
+  let comb := fun m c n : nat => if Nat.ltb 0 n && Nat.eqb c n then m else m * 70 / 100 in
+  let is_one := fun x => Nat.eqb x 100 in
+  let o := MOpts nat 50 [] false false [[105%N]] in
+  let lns : nsmap := [(None, [117%N])] in
+  let rns : nsmap := [(None, [117%N]); (Some [112%N], [118%N])] in
+  let script := [IInsNs (Some [112%N]) [118%N]; IMove 1 0 1; IUpdAttr 1 [107%N] [50%N];
+                 IText 1 (Some [121%N]); IInsertComment 0 2 (Some [99%N]) 3; ITail 3 (Some [116%N])] in
+  Nat.leb (oF nat o) 0 = false /\ is_one 0 = false /\
+  wf_forest L 0 /\ wf_forest R 0 /\ ns_prologue lns rns <> None /\
+  option_map fst (diff_model nat Nat.ltb Nat.leb is_one 0 100 leaf comb o L R 0 0 lns rns) = Some script /\
+  (* the move: position 1 <= |children of 0 without 1| = 1, target 0 not below 1 *)
+  (Nat.leb 1 (length (remove_id 1 (kidsof L 0))) && negb (mem 0 (subtree (S (fnext L)) L 1)) = true) /\
+  (* the update: k exists after the first two actions *)
+  match run_spec 0 L (firstn 2 script) with
+  | Some f => ahas (lattrs (labof f 1)) [107%N] = true
+  | None => False
+  end /\
+  (* the insertion: position 2 <= 2 children *)
+  match run_spec 0 L (firstn 4 script) with
+  | Some f => Nat.leb 2 (length (kidsof f 0)) = true
+  | None => False
+  end /\
+  (* the strict interpreter refuses what C05 excludes *)
+  run_spec 0 L [IUpdAttr 2 [107%N] [50%N]] = None /\
+  run_spec 0 L [IInsAttr 1 [107%N] [50%N]] = None /\
+  run_spec 0 L [IInsert 0 [99%N] 3 3] = None /\
+  run_spec 0 L [IMove 1 1 0] = None /\
+  run_spec 0 L [IMove 1 0 2] = None /\
+  run_spec 0 L [IDelete 0] = None /\
+  run_spec 0 R [IMove 2 1 0; IDelete 1] = None.
+Proof.
+  cbv zeta.
+  split; [reflexivity|]. split; [reflexivity|].
+  split; [apply wf_forestb_sound; vm_compute; reflexivity|].
+  split; [apply wf_forestb_sound; vm_compute; reflexivity|].
+  split; [vm_compute; discriminate|].
+  repeat (split; [vm_compute; reflexivity|]). vm_compute. reflexivity.
+Qed.
+Print Assumptions C05_example.
